@@ -657,3 +657,73 @@ func (l *Listener) Close() error {
 }
 
 func (l *Listener) Addr() net.Addr { return addr{"tcp", l.ep.Addr} }
+
+// ---- packet listener: one unconnected datagram socket serving many clients ----
+
+type pkt struct {
+	b    []byte
+	from netip.AddrPort
+}
+
+// PacketListener models a bound UDP socket (the methods of *net.UDPConn a
+// datagram server uses): datagrams of every client that "dials" the address
+// arrive in one queue, replies are routed by the sender's address.
+type PacketListener struct {
+	n      *Net
+	in     chan pkt
+	closed chan struct{}
+	conns  map[netip.AddrPort]*Conn
+}
+
+// ListenPacket creates the socket. Each dialling client gets a datagram
+// connection whose server end is drained into the socket's receive queue.
+func (n *Net) ListenPacket(addr string) *PacketListener {
+	pl := &PacketListener{n: n, in: make(chan pkt, 1024), closed: make(chan struct{}), conns: map[netip.AddrPort]*Conn{}}
+	n.Handle("udp", addr, func(sc *Conn) {
+		for {
+			b, err := sc.ReadMsg()
+			if err != nil {
+				return
+			}
+			// the sender's address (the client may set its source IP after dialling)
+			ra, err := netip.ParseAddrPort(sc.RemoteAddr().String())
+			if err != nil {
+				panic(err)
+			}
+			pl.conns[ra] = sc
+			p := pkt{b, ra}
+			if simrt.Select(siteRead, false, simrt.W(pl.in, &p), simrt.R(pl.closed, nil, nil)) == 1 {
+				return
+			}
+		}
+	})
+	return pl
+}
+
+func (pl *PacketListener) ReadMsgUDPAddrPort(b, oob []byte) (n, oobn, flags int, addr netip.AddrPort, err error) {
+	var p pkt
+	if simrt.Select(siteRead, false, simrt.R(pl.in, &p, nil), simrt.R(pl.closed, nil, nil)) == 1 {
+		return 0, 0, 0, netip.AddrPort{}, net.ErrClosed
+	}
+	return copy(b, p.b), 0, 0, p.from, nil
+}
+
+func (pl *PacketListener) WriteMsgUDPAddrPort(b, oob []byte, addr netip.AddrPort) (n, oobn int, err error) {
+	sc := pl.conns[addr]
+	if sc == nil || sc.IsClosed() {
+		return 0, 0, &net.OpError{Op: "write", Net: "sim", Err: net.ErrClosed}
+	}
+	if err := sc.WriteMsg(append([]byte(nil), b...), nil); err != nil {
+		return 0, 0, err
+	}
+	return len(b), 0, nil
+}
+
+func (pl *PacketListener) Close() error {
+	select {
+	case <-pl.closed:
+	default:
+		close(pl.closed)
+	}
+	return nil
+}
